@@ -372,4 +372,88 @@ theorem Back.storeFrag {P : Params} (hP : P.ans = serialAns) (hc : CodecOk P.cod
       · simp only [releaseOldBlock, Proc.fe] at p1 f1 ⊢; rw [← f1, ← p1]
       · simp only [releaseOldBlock]; rw [← f4, ← p4]
 
+theorem sparseTail_eq (idx n : Nat) :
+    (fun (i : Inode) =>
+      let i1 := ({ i with extended := true } : Inode).setBlockSize idx 0
+      ({ i1 with sparse := i1.sparse + n } : Inode)) = (InoEff.sparse idx n).app := by
+  funext i
+  apply inode_ext <;> simp [InoEff.app, Inode.setBlockSize]
+
+theorem fStep_frag (P : Params) (F : FSt) (x : Blk) (h : isFrag x = true) :
+    fStep P F x =
+      (if hasFlag x.flags blkIsSparse then { F with effs := F.effs ++ mkEff x.inode (.sparse x.index x.data.length) }
+       else match F.lookup P x with
+         | some c => { F with effs := F.effs ++ mkEff x.inode (.fragLoc c.index c.offset) }
+         | none => F.store P x) := by
+  have h' : hasFlag x.flags blkIsFragment = true := h
+  unfold fStep; rw [if_pos h']
+  split
+  · rfl
+  · cases F.lookup P x <;> rfl
+
+/-- a fragment comes back from the pool: `process_completed_fragment` -/
+theorem Back.deqFrag {P : Params} (hP : P.ans = serialAns) (hc : CodecOk P.codec) (hB : P.B < 2 ^ 24)
+    {s : Proc} {g : Ghost} {F : FSt} {W : WSt} (h : Back P s g F W) (x : Blk) (rest : List Blk) (hi : g.items = x :: rest)
+    (hfb : isFB x = false) (hfr : isFrag x = true) (k : Nat) (hacct : Acct s g k) :
+    ∃ s' extra effs, (poolDequeue P s.pool).2 = some x ∧
+      handleDequeued P { s with pool := (poolDequeue P s.pool).1 } x = .ok s' ∧
+      Back P s' { g with items := rest ++ extra, pend := g.pend.tail, done := g.done ++ [x], h := g.h ++ effs, m := g.m ++ effs }
+        (fStep P F x) W ∧
+      Acct s' { g with items := rest ++ extra, pend := g.pend.tail, done := g.done ++ [x], h := g.h ++ effs, m := g.m ++ effs } k ∧
+      s'.fe = s.fe ∧ s'.maxBacklog = s.maxBacklog := by
+  obtain ⟨hdq, hb0⟩ := h.takeFrag hP x rest hi hfb hfr
+  have hpend : g.pend = x :: rest.filter (fun b => !isFB b) := by
+    rw [← h.pend, hi]; simp [hfb]
+  have hxok : ItemOK P.B s.w.inodes.length x := h.itemOK_of_mem hc (by rw [hpend]; simp)
+  have hne : x.data ≠ [] := hxok.frag hfr
+  obtain ⟨id, hid, hidn⟩ := hxok.ino
+  have ho : g.done.foldl fOpen false = false := by
+    have := h.fproto_next x _ hpend
+    simpa [hfr] using this
+  have ho' : (g.done ++ [x]).foldl fOpen false = false := by rw [foldl_fOpen_snoc, ho]; simp [fOpen, hfr]
+  have hacct0 : Acct { s with pool := (poolDequeue P s.pool).1 } { g with items := rest, pend := g.pend.tail, done := g.done ++ [x] } (k + 1) := by
+    unfold Acct at *
+    rw [hi] at hacct
+    simp only [List.length_cons] at hacct ⊢
+    omega
+  have hfr' : hasFlag x.flags blkIsFragment = true := hfr
+  have hhd : handleDequeued P { s with pool := (poolDequeue P s.pool).1 } x =
+      processCompletedFragment P { s with pool := (poolDequeue P s.pool).1 } x := by
+    unfold handleDequeued; simp [hfr']
+  rw [hhd, fStep_frag P F x hfr]
+  unfold processCompletedFragment
+  by_cases hsp : hasFlag x.flags blkIsSparse = true
+  · simp only [hsp, if_true]
+    rw [sparseTail_eq]
+    have hb1 := hb0.addEffs x.inode (.sparse x.index x.data.length)
+      (fun id' hid' => by rw [hid] at hid'; cases hid'; exact hidn)
+      (fun e he => by
+        obtain ⟨h1, h2⟩ := mem_mkEff he
+        exact Or.inr ⟨_, _, x, h2, List.mem_append_right _ List.mem_cons_self, hfr, h1, rfl⟩)
+    refine ⟨_, [], mkEff x.inode (.sparse x.index x.data.length), hdq, rfl, ?_, ?_, rfl, rfl⟩
+    · simp only [List.append_nil]; exact hb1.backlogIrrel _
+    · have := Acct.releaseOld (s := { s with pool := (poolDequeue P s.pool).1, w := modInode s.w x.inode (InoEff.sparse x.index x.data.length).app })
+        (g := { g with items := rest, pend := g.pend.tail, done := g.done ++ [x] }) (k := k) hacct0
+      simpa [Acct] using this
+  · simp only [hsp, Bool.false_eq_true, if_false]
+    obtain ⟨c', hlk, hb1⟩ := hb0.lookup hc hB x
+    rw [hlk]
+    cases hres : F.lookup P x with
+    | some c =>
+      simp only
+      have e1 : (fun (i : Inode) => ({ i with fragIdx := c.index, fragOff := c.offset } : Inode)) = (InoEff.fragLoc c.index c.offset).app := rfl
+      rw [e1]
+      have hb2 := hb1.addEffs x.inode (.fragLoc c.index c.offset)
+        (fun id' hid' => by rw [hid] at hid'; cases hid'; exact hidn)
+        (fun e he => Or.inl ⟨_, _, (mem_mkEff he).2⟩)
+      refine ⟨_, [], mkEff x.inode (.fragLoc c.index c.offset), hdq, rfl, ?_, ?_, rfl, rfl⟩
+      · simp only [List.append_nil]; exact hb2.backlogIrrel _
+      · have := Acct.releaseOld (s := { s with pool := (poolDequeue P s.pool).1, cachedFragBlk := c', w := modInode s.w x.inode (InoEff.fragLoc c.index c.offset).app })
+          (g := { g with items := rest, pend := g.pend.tail, done := g.done ++ [x] }) (k := k) hacct0
+        simpa [Acct] using this
+    | none =>
+      simp only
+      obtain ⟨s', extra, effs, hst, hb2, hac2, hfe, hmb⟩ := hb1.storeFrag hP hc hB x hxok hne ho' k hacct0
+      exact ⟨s', extra, effs, hdq, hst, hb2, hac2, hfe, hmb⟩
+
 end Sqfs.BlockProc
